@@ -99,7 +99,13 @@ fn case(ctx: &mut Ctx, rng: &mut Rng, i: u64, sigpipe_blocked: bool, free_std: u
         _ => u64::MAX,
     };
     let want_read = if unbounded { want_read.min(500_000) } else { want_read };
-    let tag = format!("{}/{}/{}{}{}{}", handle, b.name, ["nothing-consumed", "partly-consumed", "fully-consumed"][drop_point as usize], if detached { "/detached" } else { "" }, if sigpipe_blocked { "/spawned-with-SIGPIPE-blocked" } else { "" }, if free_std != 0 { format!("/parent-fds-closed:{:03b}", free_std) } else { String::new() });
+    // the handle may also go away because the caller's frame is unwound by a panic (a worker thread that dies, a
+    // catch_unwind): the child is reaped all the same
+    let by_panic = !detached && matches!(handle, "popen" | "stream_stdout" | "stream_stderr" | "stream_stdin" | "pl_stream_stdout" | "pl_stream_stdin") && b.name != "fails-to-start" && (i / 7) % 3 == 1;
+    if by_panic {
+        ctx.count("handles_dropped_by_unwinding", 1);
+    }
+    let tag = format!("{}/{}/{}{}{}{}", handle, b.name, ["nothing-consumed", "partly-consumed", "fully-consumed"][drop_point as usize], if detached { "/detached" } else { "" }, if sigpipe_blocked { "/spawned-with-SIGPIPE-blocked" } else { "" }, if free_std != 0 { format!("/parent-fds-closed:{:03b}", free_std) } else { String::new() }) + if by_panic { "/dropped-by-unwinding" } else { "" };
     // the environment of the spawning thread is the caller's business: here it has SIGPIPE (and SIGUSR1) blocked
     let mut old_mask: libc::sigset_t = unsafe { std::mem::zeroed() };
     if sigpipe_blocked {
@@ -127,6 +133,10 @@ fn case(ctx: &mut Ctx, rng: &mut Rng, i: u64, sigpipe_blocked: bool, free_std: u
                 let mut p = e.stdin(if b.needs_eof { Redirection::Pipe } else { Redirection::None }).popen().map_err(|e| e.to_string())?;
                 // the caller can and does release the pipe end of a plain Popen itself
                 drop(p.stdin.take());
+                if by_panic {
+                    let _held = p;
+                    panic!("the caller panics while it holds the handle");
+                }
                 drop(p);
                 Ok("dropped".into())
             }
@@ -146,6 +156,10 @@ fn case(ctx: &mut Ctx, rng: &mut Rng, i: u64, sigpipe_blocked: bool, free_std: u
                     }
                     got += n as u64;
                 }
+                if by_panic {
+                    let _held = r;
+                    panic!("the caller panics while it holds the handle");
+                }
                 drop(r);
                 Ok(format!("read {} then dropped", got))
             }
@@ -153,6 +167,10 @@ fn case(ctx: &mut Ctx, rng: &mut Rng, i: u64, sigpipe_blocked: bool, free_std: u
                 let mut w = e.stream_stdin().map_err(|e| e.to_string())?;
                 if drop_point > 0 {
                     let _ = w.write(&input[..if drop_point == 1 { 1000 } else { 60000 }]);
+                }
+                if by_panic {
+                    let _held = w;
+                    panic!("the caller panics while it holds the handle");
                 }
                 drop(w);
                 Ok("dropped".into())
@@ -230,8 +248,8 @@ fn case(ctx: &mut Ctx, rng: &mut Rng, i: u64, sigpipe_blocked: bool, free_std: u
             "dropping / completing the handle deadlocked on a pipe the handle itself still holds",
             w(run::cert_json(c)),
         );
-    } else if let Some(pm) = &m.panic {
-        ctx.violation(&format!("C12/panic/{}", handle), "panic", w(J::s(pm)));
+    } else if m.panic.is_some() && !(by_panic && m.panic.as_deref().map(|p| p.contains("the caller panics")).unwrap_or(false)) {
+        ctx.violation(&format!("C12/panic/{}", handle), "panic", w(J::s(m.panic.as_deref().unwrap_or(""))));
     } else {
         ctx.count("children_audited", pids.len() as i64);
         if detached {
